@@ -3,19 +3,39 @@
 package enginefx
 
 import (
+	"errors"
 	"fmt"
 	"time"
+
+	serrors "github.com/jamf/regatta/storage/errors"
+	"github.com/jamf/regatta/storage/table"
 )
 
 // ClusterCreateTable creates a table through node 0 and waits until every node serves it.  The other nodes start their replica in
 // their reconcile loop (every 30 s in production, reading the catalogue from their possibly lagging local copy): rounds are run
 // explicitly until the table answers everywhere.
 func ClusterCreateTable(fxs []*Fixture, name string, d time.Duration) (uint64, error) {
-	tb, err := fxs[0].E.CreateTable(name)
-	if err != nil {
-		return 0, err
-	}
 	deadline := time.Now().Add(d)
+	// the metadata raft group can be without a leader for a moment (right after node restarts of an earlier case, or on a saturated
+	// machine): "shard not ready" / busy / timed out are retried; an ambiguous earlier attempt shows as "already exists"
+	var tb table.Table
+	for attempt := 0; ; attempt++ {
+		var err error
+		tb, err = fxs[0].E.CreateTable(name)
+		if err == nil {
+			break
+		}
+		if attempt > 0 && errors.Is(err, serrors.ErrTableExists) {
+			if at, gerr := fxs[0].E.Manager.GetTable(name); gerr == nil {
+				tb = at.Table
+				break
+			}
+		}
+		if time.Now().After(deadline) {
+			return 0, err
+		}
+		time.Sleep(100 * time.Millisecond)
+	}
 	for {
 		ready := true
 		var lastErr error
